@@ -92,10 +92,17 @@ func c13LoadFaults(t *testing.T, rep *verifkit.Report, docs []c13LoadDoc, last i
 	rep.Event("write_fault_injection_self_test_ok")
 
 	nRandom := verifkit.Pick(1, 8)
+	nHist := 0
 	for _, d := range docs {
 		sv, _ := c13LoadVersion(d.Body).(int)
 		if sv >= last {
 			continue
+		}
+		if d.Variant == "unchanged" {
+			nHist++
+			if !verifkit.Thorough() && nHist%2 == 0 {
+				continue // quick: every second historical golden
+			}
 		}
 		if d.Variant != "unchanged" && !(verifkit.Thorough() && d.Variant == "extra-keys-structured") {
 			continue
